@@ -152,7 +152,7 @@ def case_blur(ctx, rng, wd, unequal, big=False):
         ctx.count("prior_call_one_argument_changed")
     ok, res = ctx.call(key, gaussian_blurring, snaps, Ain, ng.copy(), sigma, pin.copy(), cut, out, data=info)
     if ok:
-        ctx.check("input_untouched", np.array_equal(np.asarray(Ain), A), key + "/input_modified", "the property array was modified", info)
+        ctx.check("input_untouched", np.array_equal(np.asarray(Ain), A, equal_nan=True), key + "/input_modified", "the property array was modified", info)
     ctx.case(f"blur/{d}D/{'unequal' if unequal else 'equal'}/rank{rank}", snaps.snapshots[0].positions, A, ng, sigma, cut, ppp,
              nontrivial=int(np.prod(ng)) > 1, sample={"d": d, "N": N, "ngrids": ng, "sigma": sigma, "cut": cut, "ppp": ppp, "rank": rank})
     if unequal:
@@ -233,11 +233,11 @@ def case_time(ctx, rng, exact, long=False):
     if cplx:
         A = A + 1j * rng.normal(size=(T, N))
     outlier = None
-    if not cplx and T >= 5 and rng.random() < 0.2:
+    if T >= 4 and rng.random() < 0.25:
         # one isolated value many orders of magnitude above the rest (an ill-defined order parameter in one frame): windows that do not
         # contain that frame are defined by the other frames alone
         outlier = (int(rng.integers(0, T - 2)), int(rng.integers(0, N)))
-        A[outlier] = float(rng.choice([3e17, -7e15, np.inf]))
+        A[outlier] = float(rng.choice([3e17, -7e15, np.inf, np.nan, np.nan]))   # nan: an order parameter that is undefined in one frame (0/0: no neighbour)
         ctx.count("series_with_an_isolated_outlier")
     snaps = Snapshots(nsnapshots=T, snapshots=[
         SingleSnapshot(timestep=t0 + step * t, nparticle=N, particle_type=np.ones(N, dtype=int), positions=np.zeros((N, 2)),
@@ -252,7 +252,7 @@ def case_time(ctx, rng, exact, long=False):
         ctx.count("prior_call_one_argument_changed")
     ok, res = ctx.call(key, time_average, snaps, Ain, float(period_s), float(dt_s), data=info)
     if ok:
-        ctx.check("input_untouched", np.array_equal(np.asarray(Ain), A), key + "/input_modified", "the property array was modified", info)
+        ctx.check("input_untouched", np.array_equal(np.asarray(Ain), A, equal_nan=True), key + "/input_modified", "the property array was modified", info)
     ctx.case(f"time/{'exact' if exact else 'generic'}/{'complex' if cplx else 'real'}", A, step, dt_s, period_s, nontrivial=wexp >= 2,
              sample={"T": T, "N": N, "dt": dt_s, "interval_steps": step, "time_period": period_s, "window": wexp})
     if exact:
@@ -280,7 +280,9 @@ def case_time(ctx, rng, exact, long=False):
         col[i_o] = False
         ok_other = bool(np.all(np.abs(vals[:, col] - exp[:, col]) <= 1e-10 * np.maximum(1.0, np.abs(exp[:, col])))) if col.any() else True
         hit = vals[~clean, i_o]
-        ok_hit = bool(np.all((hit == exp[~clean, i_o]) | (np.abs(hit - exp[~clean, i_o]) <= 1e-10 * np.abs(exp[~clean, i_o]))))
+        with np.errstate(all="ignore"):
+            e_hit = exp[~clean, i_o]
+            ok_hit = bool(np.all((hit == e_hit) | (np.abs(hit - e_hit) <= 1e-10 * np.abs(e_hit)) | (np.isnan(hit) & np.isnan(e_hit))))
         ctx.check("window_values", ok_clean and ok_other and ok_hit, key + "/values/outlier",
                   lambda: f"series with one outlier at frame {t_o}, particle {i_o}: windows without that frame correct={ok_clean}, other particles correct={ok_other}, "
                           f"windows with it correct={ok_hit}", info)
